@@ -181,6 +181,9 @@ func init() {
 			}
 			st.check(desc)
 		},
+		Conform: func() []explore.Params {
+			return []explore.Params{{"beh": "netrpc", "seq": "Start,Client,Kill"}, {"beh": "grpc", "seq": "Client,Protocol,Kill,Start"}, {"beh": "badline", "seq": "Start,Kill"}}
+		},
 		Instances: func(tier string) []explore.Params {
 			n := 3
 			if tier == "thorough" {
